@@ -89,7 +89,11 @@ func (o *objectGoMapSimple) defineOwnPropertyStr(name unistring.String, descr Pr
 
 	n := name.String()
 	if o.extensible || o._hasStr(n) {
-		o.data[n] = descr.Value.Export()
+		if descr.Value != nil {
+			o.data[n] = descr.Value.Export()
+		} else if !o._hasStr(n) {
+			o.data[n] = nil
+		}
 		return true
 	}
 
